@@ -404,6 +404,11 @@ impl<'a> Model<'a> {
             Op::Rep | Op::CtxRep => {
                 let (lo, hi) = if g.op == Op::CtxRep {
                     let n = cx.flat_string().chars().count();
+                    if !g.p.ok && n == 2 {
+                        // try_configure returns an error: the parser fails with that error at its start
+                        self.fail(MErr::user(p, (p, p), format!("Q{}", g.id)));
+                        return None;
+                    }
                     (n, Some(n))
                 } else {
                     (g.p.lo as usize, g.p.hi.map(|h| h as usize))
